@@ -86,6 +86,20 @@ def adj_oracle(nodes, edges, X, Y, Z):
     return True
 
 
+def adj_oracle_sets(nodes, edges, Xs, Ys, Z, pairs=None):
+    """adjustment criterion for sets and Z among the non-descendants of Xs: every proper (no second X node) X..Y trail that is
+    not directed must be blocked by Z.  pairs: restrict to these (x, y) pairs (used to recognise the zip() reading)."""
+    Z = set(Z)
+    E = {tuple(e) for e in edges}
+    for x, y in (pairs if pairs is not None else itertools.product(Xs, Ys)):
+        for t in O.simple_trails(nodes, edges, x, y):
+            if set(t[1:]) & set(Xs) or _is_directed(E, t):
+                continue
+            if O.trail_active(edges, t, Z):
+                return False
+    return True
+
+
 def fd_oracle(nodes, edges, X, Y, Z):
     """the three front-door clauses on paths."""
     Z = set(Z)
@@ -159,13 +173,14 @@ def check_surgery(case):
     nodes, edges = spec["nodes"], spec["edges"]
     E = {tuple(e) for e in edges}
     lat = [nodes[-1]] if (len(edges) + case.get("variant", 0)) % 2 else []
+    deferred = None
     for S in _subsets(nodes, 1, 3 if len(nodes) <= 3 else 2):
         wantE = {e for e in E if e[1] not in S}
         forms = [("list", list(S)), ("tuple", tuple(reversed(S))), ("set", set(S))] + ([("str", S[0])] if len(S) == 1 else [])
         for fname, arg in forms:
             for inplace in (False, True):
                 # ---- DAG.do
-                g = DAG(latents=set(lat))
+                g = DAG()
                 g.add_nodes_from(nodes)
                 g.add_edges_from([tuple(e) for e in edges])
                 r = g.do(arg, inplace=inplace)
@@ -176,8 +191,6 @@ def check_surgery(case):
                     return {"key": "DAG.do:nodes", "what": f"do({arg!r}, inplace={inplace}): nodes {sorted(tgt.nodes())} != {sorted(nodes)}"}
                 if _edges_of(tgt) != wantE:
                     return {"key": "DAG.do:edges", "what": f"edges {sorted(E)} do({arg!r}, inplace={inplace}) -> {sorted(_edges_of(tgt))}, expected {sorted(wantE)}"}
-                if set(tgt.latents) != set(lat):
-                    return {"key": "DAG.do:latents", "what": f"latents {tgt.latents} != {lat}"}
                 if not inplace and (_edges_of(g) != E or set(g.nodes()) != set(nodes)):
                     return {"key": "DAG.do:original-mutated", "what": f"do({arg!r}) changed the receiver: {sorted(_edges_of(g))}"}
                 # ---- BayesianNetwork.do
@@ -238,17 +251,50 @@ def check_surgery(case):
                     return {"key": f"{nm}.do:unknown-node-accepted", "what": f"do({bad!r}, inplace={inplace}) did not raise ValueError"}
                 if nm == "BayesianNetwork" and (_edges_of(obj) != E):
                     return {"key": f"{nm}.do:unknown-node-mutated", "what": f"failed do({bad!r}) changed the edges"}
+    return deferred
+
+
+def gen_dag_latents(tier, seed):
+    for n in (2, 3, 4):
+        yield {"nodes": NAMES[n], "dags": list(O.all_dags(n, NAMES[n]))}
+
+
+def check_dag_latents(case):
+    """DAG.do keeps the latent marking of the nodes (one case = all DAGs on n nodes: the known defect hits every input)."""
+    from pgmpy.base import DAG
+
+    nodes = case["nodes"]
+    for edges in case["dags"]:
+        for lat in ([nodes[0]], [nodes[-1], nodes[0]]):
+            for x in nodes:
+                for inplace in (True, False):
+                    g = DAG(latents=set(lat))
+                    g.add_nodes_from(nodes)
+                    g.add_edges_from([tuple(e) for e in edges])
+                    r = g.do([x], inplace=inplace)
+                    tgt = g if inplace else r
+                    if set(g.latents) != set(lat):
+                        return {"key": "DAG.do:latents-of-receiver", "what": f"edges={edges} do([{x!r}], inplace={inplace}): receiver latents {g.latents} != {lat}"}
+                    if set(tgt.latents) != set(lat):
+                        return {"key": "DAG.do:latents-dropped", "what": f"DAG(latents={lat}, edges={edges}).do([{x!r}], inplace={inplace}).latents == {tgt.latents}"}
     return None
 
 
-# ----------------------------------------------------------------------------- group: query
-def gen_query(tier, seed):
+# ----------------------------------------------------------------------------- groups: query*
+def gen_query(tier, seed, every_quick=6, every_thorough=1, latent_variant=True):
     for i, c in enumerate(_bn_cases(tier, seed, "c13-query", (1, 2, 3, 4), 2)):
         n = len(c["spec"]["nodes"])
-        if n == 4 and (c["variant"] == 1 or (tier == "quick" and (i // 2 + seed) % 6)):
+        every = every_quick if tier == "quick" else every_thorough
+        if n == 4 and (c["variant"] == 1 or (i // 2 + seed) % every):
+            continue
+        if c["variant"] == 1 and not latent_variant:
             continue
         c["latent"] = c["variant"] == 1 and n >= 2
         yield c
+
+
+def gen_query_sub(tier, seed):
+    yield from gen_query(tier, seed, 6, 3, latent_variant=False)
 
 
 def _compare(res, spec, Y, want):
@@ -277,7 +323,9 @@ def _pick_states(spec, S):
 DEFECT_KEYS = ("query:evidence-outside-adjustment-set", "query:multi-do:parent-child", "query:multi-do:default-adjustment")
 
 
-def check_query(case):
+def _check_query(case, mode):
+    """mode 'base': no / single do, evidence absent or inside the adjustment set (or no adjustment needed);
+    'evidence': single do, evidence on a variable outside a non-empty adjustment set;  'multi': two do variables."""
     from pgmpy.inference import CausalInference
 
     spec = O.spec_from_json(case["spec"])
@@ -291,16 +339,17 @@ def check_query(case):
     deferred = {}
     # BeliefPropagation refuses models whose moral graph is disconnected ("No sepset found"): accepted refusal
     connected = len(O.descendants_or_self([e for e in edges] + [[b, a] for a, b in edges], nodes[:1])) == len(nodes)
-    for S in _subsets(obs, 0, 2):
+    sizes = {"base": (0, 1), "evidence": (1, 1), "multi": (2, 2)}[mode]
+    for S in _subsets(obs, *sizes):
         pa = set()
         for x in S:
             pa |= set(O.parents_of(edges, x))
         others = [v for v in nodes if v not in S]
-        # adjustment sets: default + every set that is valid by the path oracle for the query set (computed per Y below)
         for do in (_pick_states(spec, S) if S else [{}]):
             for Y in _subsets(others, 1, 2):
                 if set(Y) & set(lat):
                     continue
+                # adjustment sets: default + every observed set that satisfies the back-door criterion on paths for (S, Y)
                 adjs = [None]
                 if S:
                     cand = [v for v in obs if v not in S and v not in Y]
@@ -315,7 +364,12 @@ def check_query(case):
                             st = spec["states"][e]
                             evs.append({e: st[(len(Y) + len(S)) % len(st)]})
                     for ev in evs:
-                        if adj is not None and ev is not None and not (set(ev) <= adjset):
+                        # default set empty = no parents: conditioning is the right answer; an explicit set only licenses
+                        # evidence outside it when it is also valid for the evidence variables as outcomes
+                        outside = ev is not None and not (set(ev) <= adjset) and (adj is not None or bool(adjset))
+                        if outside != (mode == "evidence"):
+                            continue
+                        if outside and adj is not None and not bd_oracle_set(nodes, edges, S, list(Y) + list(ev), adj):
                             continue
                         want = trunc_posterior(spec, Y, do, ev)
                         for algo in ("ve", "bp"):
@@ -340,7 +394,7 @@ def check_query(case):
                                     key = "query:multi-do:parent-child"
                                 elif len(S) > 1 and adj is None:
                                     key = "query:multi-do:default-adjustment"
-                                elif ev is not None and not (set(ev) <= adjset) and adjset:
+                                elif outside:
                                     key = "query:evidence-outside-adjustment-set"
                                 elif overlap:
                                     key = "query:overlap-not-refused"
@@ -362,6 +416,18 @@ def check_query(case):
     return None
 
 
+def check_query(case):
+    return _check_query(case, "base")
+
+
+def check_query_evidence(case):
+    return _check_query(case, "evidence")
+
+
+def check_query_multi(case):
+    return _check_query(case, "multi")
+
+
 # ----------------------------------------------------------------------------- group: criteria
 def gen_criteria(tier, seed):
     for n in (2, 3, 4):
@@ -381,7 +447,6 @@ def check_criteria(case):
 
     nodes, edges = case["nodes"], case["edges"]
     E = {tuple(e) for e in edges}
-    deferred = None
     for lat in [[]] + [[v] for v in nodes]:
         m = BayesianNetwork(latents=set(lat))
         m.add_nodes_from(nodes)
@@ -463,33 +528,111 @@ def check_criteria(case):
                     return {"key": "is_valid_adjustment_set:result", "what": f"{where} Z={Z}: got {got}, adjustment criterion on paths gives {want}"}
             if _edges_of(ci.model) != E:
                 return {"key": "is_valid_adjustment_set:model-mutated", "what": f"{where}: model edges changed"}
-            all_valid = [Z for Z in _subsets([v for v in cand if v not in lat]) if adj_oracle(nodes, edges, X, Y, Z)]
-            try:
-                mz = ci.get_minimal_adjustment_set(X, Y)
-            except ValueError:
+    return None
+
+
+def _bucketed(tier, seed, nbuckets):
+    cases = list(gen_criteria(tier, seed))
+    for r in range(nbuckets):
+        dags = [c["edges"] for i, c in enumerate(cases) if i % nbuckets == r and len(c["nodes"]) == 4]
+        small = [c for i, c in enumerate(cases) if i % nbuckets == r and len(c["nodes"]) != 4]
+        if dags:
+            yield {"nodes": NAMES[4], "dags": dags}
+        by_n = {}
+        for c in small:
+            by_n.setdefault(len(c["nodes"]), []).append(c["edges"])
+        for n, ds in by_n.items():
+            yield {"nodes": NAMES[n], "dags": ds}
+
+
+def gen_minimal(tier, seed):
+    yield from _bucketed(tier, seed, 24)
+
+
+def gen_adj_multi(tier, seed):
+    yield from _bucketed(tier, seed, 16)
+
+
+def check_minimal(case):
+    """get_minimal_adjustment_set: valid by the adjustment criterion on paths, minimal, latent-free; None only if no observed
+    set is valid; ValueError only when Y is a parent of X.  A case is a bucket of DAGs (the known defect hits many DAGs)."""
+    from pgmpy.inference import CausalInference
+    from pgmpy.models import BayesianNetwork
+
+    nodes = case["nodes"]
+    deferred = None
+    for edges in case["dags"]:
+        E = {tuple(e) for e in edges}
+        for lat in [[]] + [[v] for v in nodes]:
+            m = BayesianNetwork(latents=set(lat))
+            m.add_nodes_from(nodes)
+            m.add_edges_from([tuple(e) for e in edges])
+            ci = CausalInference(m)
+            for X, Y in itertools.permutations([v for v in nodes if v not in lat], 2):
+                deX = O.descendants_or_self(edges, [X])
+                where = f"edges={edges} latents={lat} X={X} Y={Y}"
+                cand = [v for v in nodes if v not in (X, Y) and v not in lat]
+                try:
+                    mz = ci.get_minimal_adjustment_set(X, Y)
+                except ValueError:
+                    if (Y, X) in E:
+                        continue
+                    return {"key": "get_minimal_adjustment_set:raise", "what": f"{where}: ValueError although Y is not a parent of X"}
                 if (Y, X) in E:
+                    return {"key": "get_minimal_adjustment_set:parent-outcome-accepted", "what": f"{where}: returned {mz} although Y -> X"}
+                if _edges_of(m) != E:
+                    return {"key": "get_minimal_adjustment_set:model-mutated", "what": f"{where}: model edges changed"}
+                if mz is None:
+                    all_valid = [Z for Z in _subsets(cand) if adj_oracle(nodes, edges, X, Y, Z)]
+                    if all_valid:
+                        return {"key": "get_minimal_adjustment_set:none-but-exists", "what": f"{where}: None but {all_valid} are valid"}
                     continue
-                return {"key": "get_minimal_adjustment_set:raise", "what": f"{where}: ValueError although Y is not a parent of X"}
-            if (Y, X) in E:
-                return {"key": "get_minimal_adjustment_set:parent-outcome-accepted", "what": f"{where}: returned {mz} although Y -> X"}
-            if mz is None:
-                if all_valid:
-                    return {"key": "get_minimal_adjustment_set:none-but-exists", "what": f"{where}: None but {all_valid} are valid"}
-                continue
-            mz = set(mz)
-            if mz & set(lat):
-                return {"key": "get_minimal_adjustment_set:latent", "what": f"{where}: {sorted(mz)}"}
-            if mz & deX:
-                # genuine defect (hash-seed dependent); reported after the remaining checks of this case
-                deferred = deferred or {"key": "get_minimal_adjustment_set:descendant-of-treatment",
-                                        "what": f"{where}: returned {sorted(mz)}, which contains a descendant of X (a node on / below a "
-                                                f"causal path); adjusting for it does not identify P(Y | do(X))"}
-                continue
-            if not adj_oracle(nodes, edges, X, Y, mz):
-                return {"key": "get_minimal_adjustment_set:invalid", "what": f"{where}: {sorted(mz)} is not a valid adjustment set"}
-            for u in mz:
-                if adj_oracle(nodes, edges, X, Y, mz - {u}):
-                    return {"key": "get_minimal_adjustment_set:not-minimal", "what": f"{where}: {sorted(mz)} minus {u} is still valid"}
+                mz = set(mz)
+                if mz & set(lat):
+                    return {"key": "get_minimal_adjustment_set:latent", "what": f"{where}: {sorted(mz)}"}
+                if mz & deX:
+                    # genuine defect (depends on set iteration order); reported after the remaining checks of this case
+                    deferred = deferred or {"key": "get_minimal_adjustment_set:descendant-of-treatment",
+                                            "what": f"{where}: returned {sorted(mz)}, which contains a descendant of X (a node on / below a "
+                                                    f"causal path); adjusting for it does not identify P(Y | do(X))"}
+                    continue
+                if not adj_oracle(nodes, edges, X, Y, mz):
+                    return {"key": "get_minimal_adjustment_set:invalid", "what": f"{where}: {sorted(mz)} is not a valid adjustment set"}
+                for u in mz:
+                    if adj_oracle(nodes, edges, X, Y, mz - {u}):
+                        return {"key": "get_minimal_adjustment_set:not-minimal", "what": f"{where}: {sorted(mz)} minus {u} is still valid"}
+    return deferred
+
+
+def check_adj_multi(case):
+    """is_valid_adjustment_set with several causes / outcomes (no latents), Z among the non-descendants of the causes."""
+    from pgmpy.inference import CausalInference
+    from pgmpy.models import BayesianNetwork
+
+    nodes = case["nodes"]
+    deferred = None
+    for edges in case["dags"]:
+        m = BayesianNetwork()
+        m.add_nodes_from(nodes)
+        m.add_edges_from([tuple(e) for e in edges])
+        ci = CausalInference(m)
+        for nx_, ny_ in ((2, 1), (1, 2), (2, 2)):
+            for Xs in itertools.combinations(nodes, nx_):
+                rest = [v for v in nodes if v not in Xs]
+                for Ys in itertools.permutations(rest, ny_):
+                    if ny_ == 2 and nx_ == 1 and Ys[0] > Ys[1]:
+                        continue
+                    deXs = O.descendants_or_self(edges, Xs)
+                    for Z in _subsets([v for v in rest if v not in Ys and v not in deXs]):
+                        want = adj_oracle_sets(nodes, edges, Xs, Ys, Z)
+                        got = bool(ci.is_valid_adjustment_set(list(Xs), list(Ys), list(Z)))
+                        if got != want:
+                            zipped = adj_oracle_sets(nodes, edges, Xs, Ys, Z, pairs=list(zip(Xs, Ys)))
+                            what = f"edges={edges} X={list(Xs)} Y={list(Ys)} Z={Z}: got {got}, adjustment criterion over all (x, y) pairs gives {want}"
+                            if got == zipped:
+                                deferred = deferred or {"key": "is_valid_adjustment_set:pairs-zipped", "what": what + " (only the zip(X, Y) pairs were tested)"}
+                            else:
+                                return {"key": "is_valid_adjustment_set:multi:result", "what": what}
     return deferred
 
 
@@ -526,7 +669,11 @@ def check_simulate(case):
     model = O.make_bn(spec)
     N = 500
     for S in _subsets(nodes, 1, 2):
-        for do in _pick_states(spec, S)[:2]:
+        for do in _pick_states(spec, S):
+            # excluded input class: a do-state that no parent configuration produces has probability 0 in the marginalised CPD
+            # and BayesianNetwork.simulate (rejection sampling on the mutilated model) never terminates on it
+            if any(sum(spec["cpd"][x]["table"][spec["states"][x].index(s)]) == 0 for x, s in do.items()):
+                continue
             free = [v for v in nodes if v not in do]
             support = {}
             for a in O.all_assignments(spec, free):
@@ -559,19 +706,33 @@ def _nt_spec(c):
 
 
 def groups(tier):
+    qb = ("BNs on all DAGs <= 3 nodes and on 1/%d of the 543 four-node DAGs (rotating with the seed), strictly positive tables, cards 2/3, "
+          "shuffled parent orders, str/int/mixed state names; ")
     return [
         Group("do_surgery", gen_surgery, check_surgery, _nt_spec, engine="E3",
               bound="BNs on all DAGs <= 4 nodes (cards 2/3, shuffled parent orders, str/int/mixed state names; thorough: 3 parametrisations each); "
                     "every node subset of size <= 3 (<= 2 on 4 nodes) given as list/tuple/set/str; inplace False/True; DAG.do and BayesianNetwork.do"),
+        Group("dag_do_latents", gen_dag_latents, check_dag_latents, engine="E3",
+              bound="all DAGs on 2..4 nodes (one case per size), 1 or 2 latent nodes, do on every single node, inplace False/True"),
         Group("query", gen_query, check_query, _nt_spec, seed_fanout=2, engine="E3",
-              bound="BNs on all DAGs <= 3 nodes (thorough: 4), strictly positive tables, cards 2/3; second variant with one latent node; do-sets of "
-                    "size 0..2 (all states for single do, 2 state pairs for double), query sets of size 1..2, no/one evidence variable, default "
-                    "adjustment set and every set valid by the path oracle, back-ends ve and bp"),
-        Group("criteria", gen_criteria, check_criteria, lambda c: len(c["edges"]) >= 1, engine="E3",
-              bound="all DAGs on 2..4 nodes (thorough: + 600 seeded 5-node DAGs) x latent subsets of size <= 1 x ordered pairs (X,Y) x every Z among "
-                    "the non-descendants of X (back-door, adjustment) / every Z without X,Y (front-door)"),
+              bound=qb % (6 if tier == "quick" else 1) + "second variant (<= 3 nodes) with one latent node; no do / single do with every state, query sets of "
+                    "size 1..2 (sets overlapping do or adjustment set: refusal or right answer), evidence absent or inside the adjustment set, default "
+                    "adjustment set and every observed set valid by the path oracle, back-ends ve and bp (bp: connected models)"),
+        Group("query_evidence", gen_query_sub, check_query_evidence, _nt_spec, engine="E3",
+              bound=qb % (6 if tier == "quick" else 3) + "single do, one evidence variable outside a non-empty adjustment set (default and valid explicit sets)"),
+        Group("query_multi_do", gen_query_sub, check_query_multi, _nt_spec, engine="E3",
+              bound=qb % (6 if tier == "quick" else 3) + "do on two variables incl. parent-child pairs (2 state pairs), default adjustment set and every set "
+                    "valid for all (x, y) pairs by the path oracle, evidence absent or inside the adjustment set"),
+        Group("criteria", gen_criteria, check_criteria, lambda c: len(c["edges"]) >= 1, seed_fanout=2, engine="E3",
+              bound="all DAGs on 2..4 nodes (thorough: + 600 seeded 5-node DAGs) x latent subsets of size <= 1 x ordered pairs of observed (X,Y) x every Z "
+                    "among the non-descendants of X (back-door, adjustment test) / every observed Z without X,Y (front-door; completeness only when a "
+                    "directed path X..Y exists, the code rejects everything otherwise)"),
+        Group("minimal_adjustment", gen_minimal, check_minimal, lambda c: any(c["dags"]), seed_fanout=4, engine="E3",
+              bound="same DAG enumeration in buckets; latent subsets of size <= 1; every ordered pair of observed nodes"),
+        Group("adjustment_multi", gen_adj_multi, check_adj_multi, lambda c: any(c["dags"]), engine="E3",
+              bound="same DAG enumeration in buckets, no latents; |X|,|Y| in {(2,1),(1,2),(2,2)}, every Z among the non-descendants of X"),
         Group("simulate_do", gen_simulate, check_simulate, _nt_spec, engine="E3",
-              bound="BNs on DAGs with 2..3 nodes (thorough: 1/8 of 4-node DAGs), random roots and deterministic children; do-sets of size <= 2; "
-                    "500 samples with fixed seed: samples inside the exact support of the truncated factorisation and covering it when every "
-                    "support point has probability >= 1/18"),
+              bound="BNs on DAGs with 2..3 nodes (thorough: 1/8 of 4-node DAGs), random roots and deterministic children; do-sets of size <= 2 with states "
+                    "that some parent configuration produces (simulate does not terminate otherwise); 500 samples with fixed seed: samples inside the "
+                    "exact support of the truncated factorisation and covering it when every support point has probability >= 1/18"),
     ]
